@@ -178,8 +178,12 @@ class SymWorld(BaseWorld):
     def nc_read(self, path):
         """-> dict(dims={name: len}, vars={name: nested lists, unwritten cells = FILL}, atts={var: {..}})"""
         f = self.stubs.FS[str(path)]
-        out = dict(dims=dict(f._dimlen), vars={}, atts={}, gatts=dict(f._st["atts"]))
+        out = dict(dims=dict(f._dimlen), vars={}, atts={}, gatts=dict(f._st["atts"]), types={})
         for name, v in f._st["variables"].items():
+            try:
+                out["types"][name] = rnp.dtype({"i": "i4", "f": "f4", "d": "f8"}.get(v._datatype, v._datatype)).name
+            except Exception:  # noqa
+                out["types"][name] = str(v._datatype)
             shape = v.shape
             arr = rnp.empty(shape, dtype=object)
             for idx in rnp.ndindex(shape):
@@ -415,7 +419,7 @@ class RealWorld(BaseWorld):
     def nc_read(self, path):
         import netCDF4
 
-        out = dict(dims={}, vars={}, atts={}, gatts={})
+        out = dict(dims={}, vars={}, atts={}, gatts={}, types={})
         with netCDF4.Dataset(str(path)) as nc:
             for d, o in nc.dimensions.items():
                 out["dims"][d] = len(o)
@@ -431,6 +435,7 @@ class RealWorld(BaseWorld):
                 data = rnp.ma.masked_invalid(data) if data.dtype.kind == "f" else rnp.ma.asarray(data)
                 out["vars"][name] = _ma_tolist(data)
                 out["atts"][name] = {k: v.getncattr(k) for k in v.ncattrs()}
+                out["types"][name] = v.dtype.name if hasattr(v.dtype, "name") else str(v.dtype)
         return out
 
     def table(self, path, columns, rows, header=True):
